@@ -17,6 +17,7 @@ import numpy as np
 
 from .. import autoscale as A
 from .. import core
+from . import c04_obj
 
 TOL = F(1, 2 ** 18)
 
@@ -139,7 +140,7 @@ def line_of(c, xste, eps32):
 
 
 def label(c):
-  d = {k: v for k, v in c.items() if k not in ("x",)}
+  d = {k: (np.asarray(v).tolist() if isinstance(v, np.ndarray) else v) for k, v in c.items() if k not in ("x",)}
   return d
 
 
@@ -148,8 +149,22 @@ def judge(run, c, x, xste, y, sc, eps32, model, mirrored):
   qn = c["q"]
   auto = isinstance(c["alpha"], str)
   key0 = dict(quantizer=qn, alpha=("const" if not auto and c["alpha"] is not None else str(c["alpha"])))
+  if c.get("cls", qn) != qn:
+    key0["cls"] = c["cls"]      # stochastic_binary / stochastic_ternary in the inference phase
   det0 = {"case": label(c)}
   n = len(x)
+  # ---- constant alpha (any numeric form, scalar or ndarray) / None: `q.scale` IS alpha (1 for None),
+  # broadcast to the input; the output is then judged as scale x code below
+  if not auto:
+    ea = [F(1)] * n if c["alpha"] is None else [
+        F(float(v)) for v in np.broadcast_to(np.asarray(c["alpha"], dtype=np.float64), c["shape"]).ravel()]
+    bad = next((i for i in range(n) if sc[i] != ea[i]), None)
+    run.count("clause:const_scale:" + ("ok" if bad is None else "FAIL"))
+    if bad is not None:
+      run.violate("const_scale", key0,
+                  dict(det0, form=str(c.get("aform", "pyfloat")), i=bad, x=str(x[bad]), y=str(y[bad]), scale_reported=str(sc[bad]), alpha=str(ea[bad]),
+                       y_float=float(y[bad]), scale_float=float(sc[bad]), alpha_float=float(ea[bad])),
+                  mirrored=mirrored)
   # ---- recover codes.  The forward value is x + (-x + s*k) in float32 (device 1): when that sum is
   # exact y = s*k; when it is merely rounded, y/s still rounds to k (bucket ste-rounded); when s*k is
   # absorbed by a much larger |x| the observable code y/s is a DIFFERENT integer: clause failure.
@@ -214,7 +229,10 @@ def judge(run, c, x, xste, y, sc, eps32, model, mirrored):
         exp0 = abs(x[i]) < t
         run.count("ternary:fixed:%s" % ("zero" if exp0 else ("tie" if abs(x[i]) == t else "nonzero")))
         if (k == 0) != exp0:
-          run.violate("threshold", key0, dict(det0, i=i, x=str(x[i]), code=str(k), thres=str(t)), mirrored=mirrored)
+          # threshold 0 is legal (and falsy): |0| is not below it, yet sign(0) = 0 makes the code 0
+          why = "zero-threshold-zero-input" if (t == 0 and x[i] == 0) else "fixed"
+          run.violate("threshold", dict(key0, why=why), dict(det0, i=i, x=str(x[i]), code=str(k), thres=str(t)),
+                      mirrored=mirrored)
   # ---- data-dependent scale
   if not auto:
     return
@@ -222,6 +240,9 @@ def judge(run, c, x, xste, y, sc, eps32, model, mirrored):
     run.violate("scale_nonneg", key0, dict(det0, scale=[str(s) for s in sc[:8]]), mirrored=mirrored)
   sa = c.get("sa")
   eps = c.get("eps")
+  if qn == "binary" and sa is not None and any(a < 0 for a in (sa if isinstance(sa, list) else [sa])):
+    # numpy convention: -1 is the last axis (the SPEC groups below follow it; the code ignores such entries)
+    key0 = dict(key0, axis="negative")
   groups = A.spec_groups(c["shape"], sa if qn == "binary" else None, eps if qn == "binary" else None, c["ch_last"])
   by = {}
   for i, g in enumerate(groups):
@@ -383,6 +404,9 @@ def run(run, tier):
         mirrored = ok
         run.count("tie:general:" + ("ok" if ok else "bad"))
     judge(run, c, x, xste, y, sc, eps32, (mE, mF), mirrored)
+
+  # ---- object-level streams: argument forms, routes, stochastic variants (inference), histories
+  c04_obj.run_obj(run, tier, Q, K, tf, np.random.default_rng([run.seed, 4]), eps32, judge)
 
   # ---- malformed configurations: the code must reject what the model rejects, with the same kind
   ml = []
